@@ -82,5 +82,53 @@ Section Mat.
   Proof.
     unfold mv, colsum. rewrite sum_swap. apply sum_ext. intros j Hj. now rewrite sum_mul_r.
   Qed.
+
+  (* ---- trace ---- *)
+  Lemma mtr_ext n A B : meq n A B -> mtr n A = mtr n B.
+  Proof. intros H. unfold mtr. apply sum_ext. intros i Hi. now apply H. Qed.
+  Lemma mtr_madd n A B : mtr n (madd A B) = mtr n A + mtr n B.
+  Proof. unfold mtr, madd. apply sum_add. Qed.
+  Lemma mtr_msub n A B : mtr n (msub A B) = mtr n A - mtr n B.
+  Proof. unfold mtr, msub. apply sum_sub. Qed.
+  Lemma mtr_mscale n c A : mtr n (mscale c A) = c * mtr n A.
+  Proof. unfold mtr, mscale. apply sum_mul_l. Qed.
+  Lemma mtr_zero n : mtr n (fun _ _ => 0) = 0.
+  Proof. unfold mtr. apply sum_0. Qed.
+  Lemma mtr_comm0 n A B : mtr n (msub (mmul n A B) (mmul n B A)) = 0.
+  Proof. rewrite mtr_msub, (mtr_mmul_comm n A B). ring. Qed.
+
+  (* ---- Hermitian conjugation ---- *)
+  Definition herm (n : nat) (A : mat) : Prop := forall i j, (i < n)%nat -> (j < n)%nat -> cj R (A j i) = A i j.
+
+  Lemma mdag_mmul n A B i j : mdag (mmul n A B) i j = mmul n (mdag B) (mdag A) i j.
+  Proof. unfold mdag, mmul. rewrite sum_cj. apply sum_ext. intros k _. rewrite cj_mul. ring. Qed.
+
+  Lemma herm_madd n A B : herm n A -> herm n B -> herm n (madd A B).
+  Proof. intros HA HB i j Hi Hj. unfold madd. now rewrite cj_add, HA, HB. Qed.
+  Lemma herm_msub n A B : herm n A -> herm n B -> herm n (msub A B).
+  Proof. intros HA HB i j Hi Hj. unfold msub. now rewrite cj_sub, HA, HB. Qed.
+  Lemma herm_mscale n c A : is_real R c -> herm n A -> herm n (mscale c A).
+  Proof. intros Hc HA i j Hi Hj. unfold mscale. now rewrite cj_mul, Hc, HA. Qed.
+  Lemma herm_zero n : herm n (fun _ _ => 0).
+  Proof. intros i j _ _. apply cj_0. Qed.
+
+  Lemma herm_mmul_swap n A B : herm n A -> herm n B ->
+    forall i j, (i < n)%nat -> (j < n)%nat -> cj R (mmul n A B j i) = mmul n B A i j.
+  Proof.
+    intros HA HB i j Hi Hj. change (cj R (mmul n A B j i)) with (mdag (mmul n A B) i j). rewrite mdag_mmul.
+    unfold mmul, mdag. apply sum_ext. intros k Hk. now rewrite HA, HB.
+  Qed.
+
+  (* anticommutator of Hermitian matrices is Hermitian; i times the commutator is Hermitian *)
+  Lemma herm_acomm n A B : herm n A -> herm n B -> herm n (madd (mmul n A B) (mmul n B A)).
+  Proof.
+    intros HA HB i j Hi Hj. unfold madd. rewrite cj_add, (herm_mmul_swap n A B HA HB i j Hi Hj), (herm_mmul_swap n B A HB HA i j Hi Hj). ring.
+  Qed.
+  Lemma herm_icomm n (im : R) A B : cj R im = - im -> herm n A -> herm n B ->
+    herm n (mscale im (msub (mmul n A B) (mmul n B A))).
+  Proof.
+    intros Him HA HB i j Hi Hj. unfold mscale, msub.
+    rewrite cj_mul, cj_sub, Him, (herm_mmul_swap n A B HA HB i j Hi Hj), (herm_mmul_swap n B A HB HA i j Hi Hj). ring.
+  Qed.
 End Mat.
 
